@@ -420,6 +420,8 @@ def run(P: Program, rep: Report):
         ("list-2", lambda b: AList([b[3], b[4]]), lambda b: [b[3], b[4]]),
         ("tuple-2", lambda b: (b[4], b[3]), lambda b: [b[4], b[3]]),
         ("int", lambda b: 5, "TypeError"),
+        ("zero", lambda b: 0, "TypeError"),
+        ("false", lambda b: False, "TypeError"),
         ("str", lambda b: "ab", "TypeError"),
         ("list-with-nonblock", lambda b: AList([b[3], 7]), "TypeError"),
         ("generator", lambda b: OneShot([b[3]]), "TypeError"),
